@@ -46,6 +46,8 @@ def _kind(dtype, default="float"):
     m = {values.s_float: "float", values.s_int: "int", values.s_bool: "bool"}
     if dtype in m:
         return m[dtype]
+    if isinstance(dtype, str) and dtype in ("bool", "int", "float", "complex"):
+        return dtype          # `other.dtype` of a modelled array
     raise Undecided("dtype %r" % (dtype,))
 
 
@@ -105,6 +107,17 @@ class NP:
                 ks.append(_kind(a))
         k = max(ks, key=order.index)
         return _DType({"bool": "bool", "int": "int64", "float": "float64", "complex": "complex128"}[k], k)
+
+    def empty(self, shape, dtype=None):
+        # uninitialised contents: a fresh array (nothing is known about the values)
+        k = _kind(dtype)
+        return arrays.fresh_array(engine().fresh("empty"), _shape(shape), k)
+
+    def atleast_1d(self, x):
+        x = self.asarray(x) if not isinstance(x, (Num, Cx, int, float)) else x
+        if isinstance(x, Arr):
+            return x
+        return arrays.from_list([x])
 
     def full(self, shape, fill_value, dtype=None):
         # NumPy: without dtype the array takes the type of the fill value (np.full(n, 400) is an integer array)
